@@ -126,6 +126,20 @@ func checkC06(p *Prog, r *Report) {
 			found := false
 			if carried, inLoop := loopCarriedGuards(add); inLoop {
 				r.Check("R3", base+"|addition-independent-of-earlier-entries", len(carried) == 0, p.InstrPos(add), fmt.Sprintf("whether an entry marked added is processed depends on that entry only, not on the entries before it (a notification may remove an entity and add it again): %v", carried))
+			} else {
+				// where removals are applied entry by entry, additions are too: the entries of a notification take effect in
+				// the order announced ("removed [1,1], added [1,1]" replaces the entity; additions applied up front lose it)
+				var removalInLoop ssa.Instruction
+				forEachCall(fn, func(s2 ssa.CallInstruction) {
+					if c2, ok := s2.(*ssa.Call); ok && calleeIsIfaceMethod(&c2.Call, dri, "RemoveEntityByAddress") {
+						if loopHeaderOf(liftInScope(c2).Block()) != nil {
+							removalInLoop = c2
+						}
+					}
+				})
+				if removalInLoop != nil {
+					r.Fail("R3", base+"|addition-in-announced-order", p.InstrPos(add), "removals are applied inside the loop over the announced entries ("+p.InstrPos(removalInLoop)+") but the addition runs outside that loop: an entity announced as removed and then as added again ends up absent")
+				}
 			}
 			forEachCall(fn, func(site ssa.CallInstruction) {
 				c, ok := site.(*ssa.Call)
@@ -246,6 +260,7 @@ func checkC06(p *Prog, r *Report) {
 	})
 	c06Rebuild(p, r)
 	c06FullDiff(p, r)
+	entityListWriters(p, r, "R15")
 	r.Rule("R12", "RemoveEntityByAddress drops exactly the entity it hands back to the cascade: the rebuild of the peer's entity list keeps an entry ⇔ it is not the entity found for the address (an entry dropped on the side — a sub-entity, a prefix match — never gets its subscriptions, bindings and caches cleaned)")
 	applyRetain(p, r, "R12", "spine", "DeviceRemote", "RemoveEntityByAddress", retainSpec{Field: F("DeviceRemote.entities"), Required: map[string]string{"entity": "=$"}})
 	r.Rule("R8", "a list field whose slice header a getter hands out (callers iterate it without the lock) is never modified in place: no element store, no copy into it, no in-place library routine (slices.DeleteFunc, sort.Slice, …); removal builds a new slice")
@@ -804,4 +819,60 @@ func reannounceRules(p *Prog, r *Report, eri *types.Interface, ruleW, ruleA stri
 		r.Floor(ruleW, "feature rebuilds next to a stored description", nW, 1)
 	}
 	r.Floor(ruleA, "device address updates", nU, 1)
+}
+
+// entityListWriters: who may change the entity list of a remote device, and how. The disconnect clean-up and the
+// removal cascade find a peer's subscriptions and bindings by walking this list, so an entity may only leave it
+// through the one removal that hands it to the cascade. Every store into the list is therefore either
+// (a) the construction of the device, (b) an append of one new entity to the current list, or (c) the rebuild in the
+// function that returns the removed entity (the retain table C06-R12 decides what that one keeps).
+func entityListWriters(p *Prog, r *Report, rule string) {
+	r.Rule(rule, "an entity leaves a remote device's entity list only through the removal that returns it to the clean-up cascade: every other store into the list appends to the current list (a rebuild elsewhere — 'keep what the reply lists' — drops entities whose subscriptions and bindings nobody finds again)")
+	eri := p.LookupIface("api", "EntityRemoteInterface")
+	key := F("DeviceRemote.entities")
+	fname := key[strings.Index(key, ".")+1:]
+	n := 0
+	for _, fn := range p.RepoFns("spine") {
+		if fn.Blocks == nil {
+			continue
+		}
+		idx := 0
+		for _, b := range fn.Blocks {
+			for _, ins := range b.Instrs {
+				st, ok := ins.(*ssa.Store)
+				if !ok {
+					continue
+				}
+				fa, ok := st.Addr.(*ssa.FieldAddr)
+				if !ok || fieldOfAddr(fa) == nil || fieldOfAddr(fa).Name() != fname || !isNamed(derefType(fa.X.Type()), "spine", "DeviceRemote") {
+					continue
+				}
+				if _, fresh := fa.X.(*ssa.Alloc); fresh {
+					continue // construction
+				}
+				idx++
+				n++
+				base := fmt.Sprintf("%s|store#%d", FnName(originOf(fn)), idx)
+				// (b) append(<load of the same field>, x)
+				isAppend := false
+				if c, isC := st.Val.(*ssa.Call); isC && builtinName(&c.Call) == "append" && len(c.Call.Args) == 2 {
+					if strings.HasSuffix(Path(c.Call.Args[0]), "."+fname) {
+						isAppend = true
+					}
+				}
+				// (c) the function hands the removed entity back
+				returnsEntity := false
+				if eri != nil && fn.Signature.Results().Len() == 1 && implementsIface(fn.Signature.Results().At(0).Type(), eri) {
+					returnsEntity = true
+				}
+				if eri != nil && fn.Signature.Results().Len() == 1 {
+					if it, isI := fn.Signature.Results().At(0).Type().Underlying().(*types.Interface); isI && types.Identical(it, eri) {
+						returnsEntity = true
+					}
+				}
+				r.Check(rule, base, isAppend || returnsEntity, p.InstrPos(st), fmt.Sprintf("store of %s into the entity list: appends to the current list=%v; in the removal that returns the removed entity=%v", Path(st.Val), isAppend, returnsEntity))
+			}
+		}
+	}
+	r.Floor(rule, "stores into the remote entity list", n, 2)
 }
